@@ -116,6 +116,17 @@ def run_fixed(ctx, cases, fn):
             ctx.record_violation(v)
 
 
+def abort_or_supply_failure(ctx, e, case):
+    """an exception while the first round's parameters are computed: raised inside the supply classes (src/food_system) it is a violation
+    of 'one finite value per simulated month' (the code raises on valid constants); raised by the loader / optimiser glue it is the
+    subject of C16 and only counted"""
+    import sys
+    frame = project_frame(e.__traceback__)
+    if frame.startswith("food_system/") and not isinstance(e, AssertionError):
+        ctx.fail("supply-code-raises-on-valid-constants:%s@%s" % (type(e).__name__, frame), "%s: %s" % (type(e).__name__, str(e)[:120]), case)
+    ctx.abort("%s@%s" % (type(e).__name__, frame))
+
+
 def first_round(iso3, options):
     from src.optimizer.parameters import Parameters
     cp, tcp, loader = build_constants(iso3, options)
